@@ -201,12 +201,22 @@ class Ed25519Key(PKey):
         return m
 
     def verify_ssh_sig(self, data, msg):
-        if msg.get_text() != self.name:
+        try:
+            sig_type = msg.get_text()
+        except UnicodeDecodeError:
+            return False
+        if sig_type != self.name:
             return False
 
+        # a key loaded from a private key file only holds the signing key
+        if self._signing_key is not None:
+            verifying_key = self._signing_key.verify_key
+        else:
+            verifying_key = self._verifying_key
         try:
-            self._verifying_key.verify(data, msg.get_binary())
-        except nacl.exceptions.BadSignatureError:
+            verifying_key.verify(data, msg.get_binary())
+        except (nacl.exceptions.BadSignatureError, ValueError):
+            # ValueError: signature of the wrong length
             return False
         else:
             return True
